@@ -1117,6 +1117,14 @@ static bool canResend(ssl_t *ssl)
         }
 #else
         canSend = 1;  /* Why wouldnt't it be safe to resend aways when in doubt */
+        /* One exception: a client resuming a session that is waiting for the
+           server's FINISHED has only sent its ClientHello.  Encoding from
+           this state would build the full handshake key exchange flight,
+           which was never sent and for which no state exists. */
+        if ((ssl->flags & SSL_FLAGS_RESUMED) && ssl->hsState == SSL_HS_FINISHED)
+        {
+            canSend = 0;
+        }
 #endif
     }
     return canSend;
